@@ -182,6 +182,129 @@ def unit_forms(unit):
     return forms
 
 
+# ------------------------------------------------------------------------------------------------
+# Structural certificates for three functions of the read path: instead of one recorded normal form, the
+# facts the Gallina skeleton states are checked on the AST, so that renamings, guard clauses, extracted
+# check helpers and extra `if ...: raise` guards are accepted while anything that could let a damaged file
+# through (a try/except, a return of something else, a missing assert) is not.
+def _no_try(fn, what):
+    for n in ast.walk(fn):
+        if isinstance(n, (ast.Try, ast.TryStar if hasattr(ast, "TryStar") else ast.Try)):
+            raise Unsupported(what + ": try/except in the read path")
+
+
+def _flatten(stmts):
+    for st in stmts:
+        if isinstance(st, ast.Expr) and isinstance(st.value, ast.Constant):
+            continue
+        if isinstance(st, ast.Expr) and ast.unparse(st).startswith("logger."):
+            continue
+        yield st
+        if isinstance(st, (ast.If, ast.With)):
+            yield from _flatten(st.body)
+            if isinstance(st, ast.If):
+                yield from _flatten(st.orelse)
+
+
+def _only_raise_guard(st):
+    """if <cond>: raise ...   (possibly nested ifs / else branches, every leaf a raise)"""
+    if isinstance(st, ast.Raise):
+        return True
+    if isinstance(st, ast.If):
+        leaves = list(st.body) + list(st.orelse)
+        return bool(leaves) and all(_only_raise_guard(x) for x in leaves)
+    return False
+
+
+def certify_read_chunk(fn):
+    _no_try(fn, "read_chunk")
+    if [a.arg for a in fn.args.args] != ["self", "path"]:
+        raise Unsupported("read_chunk: signature")
+    body = [s for s in fn.body if not (isinstance(s, ast.Expr) and (isinstance(s.value, ast.Constant) or ast.unparse(s).startswith("logger.")))]
+    if not (body and isinstance(body[0], ast.With) and ast.unparse(body[0].items[0].context_expr) == "open(path, 'rb')"
+            and body[0].items[0].optional_vars is not None and [ast.unparse(x) for x in body[0].body] == [f"data = {ast.unparse(body[0].items[0].optional_vars)}.read()"]):
+        raise Unsupported("read_chunk: does not start by reading the whole file into `data`")
+    env = {}
+    for st in body[1:-1]:
+        if _only_raise_guard(st):
+            continue
+        if isinstance(st, ast.Assign) and len(st.targets) == 1 and isinstance(st.targets[0], ast.Name) and st.targets[0].id != "data":
+            env[st.targets[0].id] = ast.unparse(st.value)
+            continue
+        raise Unsupported("read_chunk: statement " + ast.unparse(st)[:80])
+    last = body[-1]
+    if not isinstance(last, ast.Return):
+        raise Unsupported("read_chunk: no final return")
+    r = ast.unparse(last.value)
+    for k, v in env.items():
+        r = r.replace(f"({k})", f"({v})")
+    if r != "pickle.loads(self.compressor.decode(data))":
+        raise Unsupported("read_chunk: does not return pickle.loads(self.compressor.decode(data))")
+
+
+def certify_chunk_record_index(fn):
+    _no_try(fn, "chunk_record_index")
+    if [a.arg for a in fn.args.args] != ["self", "partition_id"]:
+        raise Unsupported("chunk_record_index: signature")
+    cache = "self._chunk_record_index[partition_id]"
+    loaded = None
+    seen = dict(open=False, a1=False, a2=False, store=False)
+    paths = {}
+    for st in _flatten(fn.body):
+        t = ast.unparse(st)
+        if isinstance(st, ast.If):
+            if ast.unparse(st.test) not in ("partition_id not in self._chunk_record_index", "partition_id in self._chunk_record_index"):
+                raise Unsupported("chunk_record_index: condition " + ast.unparse(st.test)[:60])
+        elif isinstance(st, ast.With):
+            ce = st.items[0].context_expr
+            arg = ast.unparse(ce.args[0]) if isinstance(ce, ast.Call) and ce.args else ""
+            arg = paths.get(arg, arg)
+            if not (isinstance(ce, ast.Call) and ast.unparse(ce.func) == "open" and arg == "self.partition_path(partition_id) / 'chunk_index'"
+                    and len(ce.args) == 2 and ast.unparse(ce.args[1]) == "'rb'"):
+                raise Unsupported("chunk_record_index: with " + ast.unparse(ce)[:60])
+            seen["open"] = True
+        elif isinstance(st, ast.Assign) and isinstance(st.targets[0], ast.Name) and isinstance(st.value, ast.BinOp):
+            paths[st.targets[0].id] = ast.unparse(st.value)
+        elif isinstance(st, ast.Assign) and isinstance(st.targets[0], ast.Name) and ast.unparse(st.value).startswith("pickle.load("):
+            loaded = st.targets[0].id
+        elif isinstance(st, ast.Assert) and loaded and t == f"assert len({loaded}) > 1":
+            seen["a1"] = True
+        elif isinstance(st, ast.Assert) and loaded and t == f"assert {loaded}[0] == 0":
+            seen["a2"] = True
+        elif isinstance(st, ast.Assign) and ast.unparse(st.targets[0]) == cache and loaded and ast.unparse(st.value) == loaded:
+            if not (seen["a1"] and seen["a2"]):
+                raise Unsupported("chunk_record_index: index cached before its sanity asserts")
+            seen["store"] = True
+        elif isinstance(st, ast.Return):
+            if ast.unparse(st.value) not in (cache, loaded):
+                raise Unsupported("chunk_record_index: returns " + ast.unparse(st.value)[:60])
+            if ast.unparse(st.value) == loaded and not (seen["a1"] and seen["a2"]):
+                raise Unsupported("chunk_record_index: index returned before its sanity asserts")
+        else:
+            raise Unsupported("chunk_record_index: statement " + t[:80])
+    if not all(seen.values()):
+        raise Unsupported("chunk_record_index: missing " + ", ".join(k for k, v in seen.items() if not v))
+
+
+def certify_store_init(fn):
+    _no_try(fn, "IntermediateColumnarFormat.__init__")
+    ok = False
+    for st in fn.body:
+        if isinstance(st, ast.With) and ast.unparse(st.items[0].context_expr) == "open(self.path / 'metadata.json')" and st.items[0].optional_vars is not None:
+            f = ast.unparse(st.items[0].optional_vars)
+            if [ast.unparse(x) for x in st.body] == [f"self.metadata = IcfMetadata.fromdict(json.load({f}))"]:
+                ok = True
+    if not ok:
+        raise Unsupported("IntermediateColumnarFormat.__init__: metadata.json is not opened and decoded unconditionally")
+
+
+CERTIFIED = {
+    "icf:IntermediateColumnarFormatField.read_chunk": certify_read_chunk,
+    "icf:IntermediateColumnarFormatField.chunk_record_index": certify_chunk_record_index,
+    "icf:IntermediateColumnarFormat.__init__": certify_store_init,
+}
+
+
 def main():
     out_dir = sys.argv[1]
     record = "--record" in sys.argv
@@ -196,6 +319,15 @@ def main():
                 json.dump(forms, open(shape_file, "w"), indent=1, sort_keys=True)
             want = json.load(open(shape_file))
             diff = sorted(k for k in set(forms) | set(want) if forms.get(k) != want.get(k))
+            # functions whose shape changed but for which a structural certificate exists
+            still = []
+            for k in diff:
+                if k in CERTIFIED:
+                    mod, qual = k.split(":")
+                    CERTIFIED[k](find(ast.parse(open(os.path.join(REPO, SRC[mod])).read()), qual))
+                else:
+                    still.append(k)
+            diff = still
             if diff:
                 raise Unsupported("shape changed: " + ", ".join(diff))
             text = f"(* GENERATED by translator/workers2coq.py from {REPO}: the recognised control skeleton *)\n" + open(tmpl).read()
